@@ -48,6 +48,9 @@ def alt_cfg(a):
         return {'type': ty, 'bytecode': code, 'argument': dict(arg)}
     if ty == 'enumeration':
         return {'type': ty, 'bytecode': {'size': 8, 'value_dict': {'kx': aid}}, 'argument': dict(arg, value_dict={'kx': 0})}
+    if ty == 'enumeration0':
+        # no operand code at all: the key is mapped to the argument value 0 (a value like any other), so the emitted byte is 0
+        return {'type': 'enumeration', 'argument': {'size': 8, 'byte_align': False, 'value_dict': {'kx': 0, 'ky': 1}}}
     if ty == 'relative_address':
         c = {'type': ty, 'bytecode': code, 'argument': dict(arg)}
         if curly:
@@ -92,6 +95,17 @@ def build(e, stmts=None):
         cfg['instructions'][f'mk{i + 1}'] = {'bytecode': {'value': 0xE0 + i + 1, 'size': 8}}
     stmts = stmts if stmts is not None else [e['t']]
     src = 'kx = 7\nlab = 9\n' + ''.join('InS ' + ', '.join(TXT[t] for t in ts) + '\n' for ts in stmts)
+    if stmts == [e['t']] and len(str(e['isa'])) % 2 == 1:
+        # the definition declares its registers in upper case (R1, R2, A) and the source spells them as declared: nothing else changes
+        def up(node):
+            if isinstance(node, dict):
+                return {k: (v.upper() if k == 'register' and isinstance(v, str) else up(v)) for k, v in node.items()}
+            if isinstance(node, list):
+                return [up(x) for x in node]
+            return node
+        cfg = up(cfg)
+        cfg['general']['registers'] = [r.upper() for r in cfg['general']['registers']]
+        src = src.replace('r1', 'R1').replace('r2', 'R2')
     return isagen.dump(cfg), src
 
 
@@ -112,6 +126,9 @@ def expected_prefix(e):
         t = None if alts[aid][1] == 'empty' else texts.pop(0)
         if alts[aid][1] == 'numeric_bytecode':
             out.append(VAL[t])
+        elif alts[aid][1] == 'enumeration0':
+            if len(r['ids']) == 1:
+                out.append(0)        # no operand code: the byte after the opcode is the argument 0 (with more operands the codes of the others follow first)
         else:
             out.append(aid)
         if alts[aid][1] == 'indexed_register2' and len(r['ids']) == 1:
